@@ -96,6 +96,11 @@ def run(ctx):
                     continue
                 if "\n" in enc or "\r" in enc:
                     ctx.violation("raw_line_break_in_encoding", f"{b} ({form}): encoding contains a raw line break: {enc[:80]!r}", case)
+            pr = first[b].get("pretty", [None] * (i + 1))[i]
+            if pr is not None:
+                ctx.count("pretty_then_compact_sequences")
+                if pr[0] != "ok":
+                    ctx.violation("encode_failed", f"{b}: pretty encoding failed: {pr[1]}", case)
             st, dec = first[b]["self_dec"][i]
             if st != "ok" or tagged(dec) != tv:
                 ctx.violation("self_round_trip", f"{b}: decode(encode(v)) = {dec!r} != v", case)
